@@ -140,6 +140,28 @@ def ScopeSt.makeRng (s : ScopeSt) (name : String) : Except Err (SymKey × ScopeS
       .ok (foldStatic r.key (r.suffix ++ [Datum.n (k + 1)]), { s with counters := ainsert nm (k + 1) s.counters })
     | _, _ => .error .counterMissing
 
+/-- flat key of a counter (what `flatten_dict` calls the path): child tokens then the stream -/
+def ctrKey (path : List String) (nm : String) : String := String.intercalate "/" (path ++ [nm])
+
+/-- `make_rng(name)` called on the child scope reached by `push`-ing the names in `path` (`[]` = the scope itself).
+A child's streams are its parent's with the child's name appended to the LazyRng suffix; its counters are a dict
+nested under the child token in the parent's counter dict (the flat key `ctrKey`), created at 0 by `push`. -/
+def ScopeSt.makeRngAt (s : ScopeSt) (path : List String) (name : String) : Except Err (SymKey × ScopeSt) :=
+  match s.rngName name with
+  | none => .error .rngMissing
+  | some nm =>
+    match alookup nm s.rngs with
+    | none => .error .counterMissing
+    | some r =>
+      match alookup (ctrKey path nm) s.counters with
+      | some k =>
+        .ok (foldStatic r.key (r.suffix ++ path.map Datum.s ++ [Datum.n (k + 1)]),
+          { s with counters := ainsert (ctrKey path nm) (k + 1) s.counters })
+      | none =>
+        if path.isEmpty then .error .counterMissing
+        else .ok (foldStatic r.key (r.suffix ++ path.map Datum.s ++ [Datum.n 1]),
+          { s with counters := ainsert (ctrKey path nm) 1 s.counters })
+
 /-! ## Module bodies -/
 
 /-- integer polynomial expressions -/
@@ -160,6 +182,7 @@ inductive Prog where
   | put (c n : String) (e : Expr)   -- `self.put_variable(c, n, e)`
   | decl (c n : String) (e : Expr)  -- `self.variable(c, n, lambda: e).value`
   | rng (stream : String)           -- `self.make_rng(stream)`; the key is part of the output
+  | rngAt (path : List String) (stream : String)   -- `child.make_rng(stream)` for the (setup-bound) child at `path`
   deriving Repr, DecidableEq, Inhabited
 
 /-- what an expression can see -/
@@ -223,6 +246,10 @@ def eval (env : Env) : Prog → M → Except Err M
     match m.sc.makeRng s with
     | .error e => .error e
     | .ok (k, sc) => .ok { m with keys := m.keys ++ [k], sc := sc }
+  | .rngAt p s, m =>
+    match m.sc.makeRngAt p s with
+    | .error e => .error e
+    | .ok (k, sc) => .ok { m with keys := m.keys ++ [k], sc := sc }
 
 /-- collections a body touches / may write / rng streams it names -/
 def cols : Prog → List String
@@ -233,6 +260,7 @@ def cols : Prog → List String
   | .put c _ _ => [c]
   | .decl c _ _ => [c]
   | .rng _ => []
+  | .rngAt _ _ => []
 
 def wcols : Prog → List String
   | .seq p q => wcols p ++ wcols q
@@ -243,7 +271,22 @@ def wcols : Prog → List String
 def rngNames : Prog → List String
   | .seq p q => rngNames p ++ rngNames q
   | .rng s => [s]
+  | .rngAt _ s => [s]
   | _ => []
+
+/-- the body run on the child scope `ch` (a module bound under that name): the child's variables live under the
+child's name inside each collection of the parent's view — `{col: {ch: {n: v}}}`, rendered here by the variable name
+`ch/n` (Module name reservations keep a variable and a child from sharing a name) —, its mutability is the parent's,
+its rng streams and counters are the parent's at path `ch`. -/
+def inChild (ch : String) : Prog → Prog
+  | .skip => .skip
+  | .seq p q => .seq (inChild ch p) (inChild ch q)
+  | .get c n => .get c (ch ++ "/" ++ n)
+  | .has c n => .has c (ch ++ "/" ++ n)
+  | .put c n e => .put c (ch ++ "/" ++ n) e
+  | .decl c n e => .decl c (ch ++ "/" ++ n) e
+  | .rng s => .rngAt [ch] s
+  | .rngAt p s => .rngAt (ch :: p) s
 
 /-- the streams a body's draws can resolve to: the named ones and the `'params'` fallback -/
 def rngDeps (b : Prog) : List String := if rngNames b = [] then [] else "params" :: rngNames b
@@ -623,6 +666,14 @@ def fingerprint (variables : LFilter) (e : JitEnv) : Fingerprint :=
     scopeMutable := e.mutable     -- `_fingerprint_recursive` keeps a DenyList / str / tuple structurally
     flags := e.flags, counters := e.counters, reservations := e.reservations }
 
+/-- CPython's `hash` on small ints: the identity, except that `-1` is reserved (`hash(-1) == -2`) -/
+def pyHashInt (n : Int) : Int := if n = -1 then -2 else n
+
+/-- what `_HashableProxy.__eq__` compared **as shipped** (before /repo cfc8239): only `hash(fingerprint)`; for the
+attribute part of the tuple that is determined by the hashes of the values.  The repaired proxy compares the
+fingerprint tuples themselves, which is what `jitCall` models (`Fingerprint` equality). -/
+def attrsHashOrig (attrs : List (String × Int)) : List (String × Int) := attrs.map (fun kv => (kv.1, pyHashInt kv.2))
+
 /-- the dynamic inputs of the jitted function: variable groups, rng groups, arguments -/
 structure JitIn where
   vars : Vars
@@ -727,5 +778,75 @@ def nnJitCall (keyByFn : Bool) (fid : Nat) (variables rngs : LFilter) (f : Fn) (
       let now := if traced then s2.counters else s1.counters
       let (ctr, dc') := restoreCounters keyByFn fid (fingerprint variables e) st.dc s1.counters now
       (.ok (y, { s2 with rngs := s.rngs, counters := ctr, frozen := s.frozen }), ⟨tc', dc'⟩, traced)
+
+
+/-! ### the rng-counter dict as a heap object: nesting and sharing by reference
+
+`scope.rng_counters` is a nested dict: stream ↦ count, and `(child_rng_token, name)` ↦ the counter dict of the child
+scope `name` — the *same object* the already-bound child scope holds (`Scope.push`).  `_restore_rng_counters`
+replays, on a jit cache hit, the counts a trace would have produced: `CountsHolder.make` (flatten), `sub`/`add`
+(`defaultdict(int)` arithmetic per flat key), `unflat`, and `set_from_dict`, which must write *into* the existing
+nested dicts.  One level of children is modelled; counts are Python ints. -/
+
+abbrev Cnt := List (String × Int)
+
+/-- the counter dict of a scope with its children's dicts as separate heap objects (address = index in `objs`;
+allocation appends) -/
+structure CHeap where
+  root : Cnt                          -- stream ↦ count in the scope's own dict
+  kids : List (String × Nat)          -- child token ↦ address of the child's dict
+  objs : List Cnt
+  deriving Repr, DecidableEq, Inhabited
+
+/-- a nested counter dict as a value (what `unflat` builds, what `flatten_dict` reads) -/
+structure CVal where
+  root : Cnt
+  kids : List (String × Cnt)
+  deriving Repr, DecidableEq, Inhabited
+
+/-- what a scope bound to the dict object at address `a` reads -/
+def CHeap.obj (h : CHeap) (a : Nat) : Cnt := match h.objs[a]? with | some c => c | none => []
+
+/-- `CountsHolder.make(scope.rng_counters)` (the flat dict, grouped by first path component) -/
+def CHeap.read (h : CHeap) : CVal := ⟨h.root, h.kids.map (fun ka => (ka.1, h.obj ka.2))⟩
+
+def cntGet (c : Cnt) (k : String) : Int := match alookup k c with | some v => v | none => 0   -- defaultdict(int)
+
+/-- `CountsHolder.sub`: for every key of `new`, `new[k] - old[k]` -/
+def cntSub (new old : Cnt) : Cnt := new.map (fun kv => (kv.1, kv.2 - cntGet old kv.1))
+/-- `CountsHolder.add`: for every key of the delta, `delta[k] + old[k]` -/
+def cntAdd (d old : Cnt) : Cnt := d.map (fun kv => (kv.1, kv.2 + cntGet old kv.1))
+
+def kidGet (v : CVal) (k : String) : Cnt := match alookup k v.kids with | some c => c | none => []
+
+def CVal.sub (new old : CVal) : CVal := ⟨cntSub new.root old.root, new.kids.map (fun kc => (kc.1, cntSub kc.2 (kidGet old kc.1)))⟩
+def CVal.add (d old : CVal) : CVal := ⟨cntAdd d.root old.root, d.kids.map (fun kc => (kc.1, cntAdd kc.2 (kidGet old kc.1)))⟩
+
+/-- `for k in updates: original[k] = updates[k]` on a leaf-level dict -/
+def mergeInto (base u : List (String × α)) : List (String × α) := u.foldl (fun acc kv => ainsert kv.1 kv.2 acc) base
+
+/-- one nested key of `set_from_dict(original, updates)`: a missing child dict is stored (a new object); an existing
+one is updated **in place** by the recursive call -/
+def setKid (h : CHeap) (kid : String) (u : Cnt) : CHeap :=
+  match alookup kid h.kids with
+  | none => { h with kids := h.kids ++ [(kid, h.objs.length)], objs := h.objs ++ [u] }
+  | some a => { h with objs := h.objs.set a (mergeInto (h.obj a) u) }
+
+/-- `lift.set_from_dict(scope.rng_counters, updates)` -/
+def setFromDict (h : CHeap) (u : CVal) : CHeap :=
+  u.kids.foldl (fun h kc => setKid h kc.1 kc.2) { h with root := mergeInto h.root u.root }
+
+/-- the non-recursive variant `original.update(updates)`: every nested dict is *replaced* by the fresh dict of
+`updates` (same values, new object) -/
+def updKid (h : CHeap) (kid : String) (u : Cnt) : CHeap :=
+  { h with kids := ainsert kid h.objs.length h.kids, objs := h.objs ++ [u] }
+
+def dictUpdate (h : CHeap) (u : CVal) : CHeap :=
+  u.kids.foldl (fun h kc => updKid h kc.1 kc.2) { h with root := mergeInto h.root u.root }
+
+/-- `_restore_rng_counters` on a cache hit: `delta` was recorded when the function was traced, `old` is captured
+before this call -/
+def restoreHeap (h : CHeap) (delta : CVal) : CHeap := setFromDict h (delta.add h.read)
+def restoreHeapUpdate (h : CHeap) (delta : CVal) : CHeap := dictUpdate h (delta.add h.read)
 
 end Flax.Lift
